@@ -16,9 +16,10 @@ UNITS_LOCAL = {"C10": [
                "size/empty, at_index(i) const/non-const for all i, contains(k) for the 3 keys and a never inserted key, at(k) const/non-const for every present key, const at(k) must throw "
                "std::out_of_range for the absent key the operation touched (for every absent key after clear and in histories of length <= 3), then the contents again (queries must not mutate) - "
                "all compared with an array find-or-append reference. "
-               "ParameterizedObject through a subclass exposing params_begin/end, D=6 (7), names {a,b}, alphabet of 14: setParam<int> (a: 2 values, b: 1), setParam<float> (a,b), setParam<string> (a), "
-               "getParam<int|float> (a,b), getParam<string> (a), removeParam (a,b), resetAllParamQueryStatus; every return value is compared, the ordered (name, exact type, value, query flag) list is compared, "
-               "and hasParam(a,b,c) and getParam<double|long>(a,b,c) must answer absent/default without changing anything. "
+               "ParameterizedObject through a subclass exposing params_begin/end, D=5 (thorough 6; one less than before name c was added), names {a,b,c}, alphabet of 17: setParam<int> (a: 2 values, b, c: 1), setParam<float> (a,b), setParam<string> (a), "
+               "getParam<int> (a,b,c), getParam<float> (a,b), getParam<string> (a), removeParam (a,b,c), resetAllParamQueryStatus - so three parameters can be present and the first / a middle / the last one removed (4 operations); "
+               "every return value is compared, the ordered (name, exact type, value, query flag) list is compared after every step, "
+               "and hasParam(a,b,c,d) and getParam<double|long>(a,b,c,d) must answer absent/default without changing anything. "
                "Two histories are distinct when their operation sequences differ; distinct outcomes = distinct (operation, result, resulting ordered contents)."),
          assumptions=["setParam on an existing name keeps its query flag (the statement changes it only through a successful read and resetAllParamQueryStatus); a removed and re-set name starts unqueried",
                       "at_index(i) with i >= size() is outside the statement and not called",
